@@ -22,7 +22,7 @@ META = {
         "backticks, && / || lines; any part may also appear as the body of an if/for/def/while/class/with/else block (the next part then starts at a "
         "DEDENT).  Parts may end with blank/comment lines but never start with one.  Oracle (metamorphic, no reference parser "
         "needed): parse(p1+...+pk).body equals, with positions, the concatenation of parse(pi).body shifted by the number of lines before pi "
-        "(ast.increment_lineno), compared with astdiff.  non-trivial = some xonsh part is not last and is followed by a compound statement or "
+        "(ast.increment_lineno), compared with astdiff; a list that parses although one of its parts is rejected on its own is a violation too (parts end their last logical line themselves).  non-trivial = some xonsh part is not last and is followed by a compound statement or "
         "another macro; distinct by text.  Histogram over ordered pairs of statement kinds."
     ),
     "assumptions": ["a blank/comment line right after a with-macro block belongs to the macro (the suite documents it), hence parts never start with one"],
